@@ -520,7 +520,9 @@ func (c *rwCtx) monitorBlock(mon *rwMon, o *rwBlockObs, b *Block, st map[string]
 		if (h-1)%cyc == 0 {
 			mon.failedCycle = (h-1)/cyc + 1
 		}
-		return "", ""
+		// since fix 2606b58 no reward year can be over-distributed, so `Year rewards burned out
+		// unexpectedly` is dead code (Lean: pull_never_fails)
+		return "pull-failed", fmt.Sprintf("height %d: PullRewards returned an error (no rewards in this block)", h)
 	}
 	T := o.Pulled
 	if T.Sign() < 0 {
@@ -581,6 +583,11 @@ func (c *rwCtx) monitorBlock(mon *rwMon, o *rwBlockObs, b *Block, st map[string]
 			}
 		}
 	}
+	for i := range postYears {
+		if i < len(c.opts.YearBlockRewardShares) && postYears[i].Dist.Cmp(c.opts.YearBlockRewardShares[i].BigInt()) > 0 {
+			return "year-over-distributed", fmt.Sprintf("height %d: year %d distributed %s of a supply of %s", h, i+1, postYears[i].Dist, c.opts.YearBlockRewardShares[i].String())
+		}
+	}
 	pool := bigOf(post, "b_"+AddrStr([]byte(c.opts.RewardPoolAddress))+"_OLT")
 	switch {
 	case year >= 0:
@@ -607,9 +614,16 @@ func (c *rwCtx) monitorBlock(mon *rwMon, o *rwBlockObs, b *Block, st map[string]
 		if T.Cmp(c.opts.BurnoutRate.BigInt()) > 0 || T.Cmp(pool) > 0 {
 			return "burnout-exceeds-cap", fmt.Sprintf("height %d: pulled %s, burnout rate %s, rewards pool %s", h, T, c.opts.BurnoutRate.String(), pool)
 		}
-		// the schedule must really be over: no year is still open beyond its close window
-		if len(c.closes) > 0 && c.closes[len(c.closes)-1]-c.times[h] >= c.opts.YearCloseWindow+c.maxCycleSpan(h) {
-			st["burnout-while-year-open"]++
+		// the schedule must really be over: measured from the end of the last complete cycle (the
+		// schedule's own clock) every reward year is inside or past its close window
+		tEnd := c.times[1]
+		if h > cyc {
+			tEnd = c.times[(h-1)/cyc*cyc+1]
+		}
+		for i, cl := range c.closes {
+			if cl-tEnd >= c.opts.YearCloseWindow {
+				return "burnout-while-year-open", fmt.Sprintf("height %d: the burnout rate %s is paid although reward year %d closes %d s after the end of the last cycle (close window %d s)", h, T, i+1, cl-tEnd, c.opts.YearCloseWindow)
+			}
 		}
 		st["burnout-blocks"]++
 		if T.Cmp(pool) == 0 && pool.Cmp(c.opts.BurnoutRate.BigInt()) < 0 {
@@ -964,8 +978,9 @@ func rewardsParams(r *rng.R, seed uint64) (Params, string) {
 
 // ---------------------------------------------------------------- scripted witnesses
 
-// rwScript is a fixed minimal history: the shapes of the proved counterexamples of
-// OLP/Props/C13.lean, replayed on the implementation at the start of every run (one validator of
+// rwScript is a fixed minimal history: the regression scenarios of the defects this engine found
+// (the shapes of the regression examples of OLP/Props/C13.lean), replayed on the implementation at
+// the start of every run (one validator of
 // power 10, no delegations, cycle 2, reward interval 1, everybody signs).
 type rwScript struct {
 	name    string
@@ -973,11 +988,19 @@ type rwScript struct {
 	dt      func(c *rwCtx, now int64, h int64) int64
 	restart func(h int64) bool
 	txs     func(g *Gen, h int64) []GenTx
+	// mustRefuse: every scripted transaction has to fail in CheckTx and in DeliverTx
+	mustRefuse bool
+	// expect: the amount both nodes must pull at a height (regression scenarios of repaired defects)
+	expect map[int64]string
 }
 
 var rwScripts = []*rwScript{
-	{ // stale_cache_after_error_counterexample: a stall of 200 days inside the first reward year
+	{ // stall_regression_example (KF-C13-1/2, repaired by 729d203 + 2606b58): a stall of 200 days inside
+		// the first reward year. The forecast is clamped to one cycle: blocks 3 and 4 share exactly what
+		// is left of the year, blocks 5 and 6 pull 0, nothing fails, the twin restarted before block 6 agrees.
 		name: "stall-then-stale-cache", blocks: 6,
+		expect: map[int64]string{1: "1917808219178082191780", 2: "1917808219178082191780", 3: "34999041095890410958904110",
+			4: "34999041095890410958904110", 5: "0", 6: "0"},
 		dt: func(c *rwCtx, now, h int64) int64 {
 			if h == 3 {
 				return 200 * day
@@ -986,8 +1009,13 @@ var rwScripts = []*rwScript{
 		},
 		restart: func(h int64) bool { return h == 6 },
 	},
-	{ // sticky_burnout_counterexample: a cycle that ends two days before the last year's close window
+	{ // slow_cycle_regression_example (KF-C13-3, repaired by 729d203 + 2606b58): a cycle that ends two
+		// days before the last year's close. The last year stays open (no burnout rate while the
+		// schedule runs): blocks 3 and 4 share its supply, block 5 pulls 0, the twin restarted before
+		// block 5 agrees.
 		name: "slow-cycle-then-sticky-burnout", blocks: 5,
+		expect: map[int64]string{1: "1917808219178082191780", 2: "1917808219178082191780", 3: "15000000000000000000000000",
+			4: "15000000000000000000000000", 5: "0"},
 		dt: func(c *rwCtx, now, h int64) int64 {
 			last := c.closes[len(c.closes)-1]
 			switch h {
@@ -1000,8 +1028,9 @@ var rwScripts = []*rwScript{
 		},
 		restart: func(h int64) bool { return h == 5 },
 	},
-	{ // wrapped_withdraw_raises_matured: WithdrawAmount 2^64-1
-		name: "withdraw-2^64-1", blocks: 2,
+	{ // wrapped_withdraw_raises_matured: WithdrawAmount 2^64-1 — repaired by /repo commit d8159a7, kept
+		// as a regression scenario: the transaction must be refused by CheckTx AND by DeliverTx
+		name: "withdraw-2^64-1", blocks: 2, mustRefuse: true,
 		dt:      func(c *rwCtx, now, h int64) int64 { return 1 },
 		restart: func(h int64) bool { return false },
 		txs: func(g *Gen, h int64) []GenTx {
@@ -1141,6 +1170,16 @@ func runRewardsHistory(opt RewardsOptions, c int, r *rng.R, res *Result, hl *His
 		}
 		if script != nil && script.txs != nil {
 			gts = script.txs(g, h)
+			if script.mustRefuse {
+				for _, t := range gts {
+					if cr := A.CheckTx(t.Bytes); cr.Code == 0 {
+						hl.Add("  CheckTx admitted %s (%s)", t.Kind, t.Note)
+						hit("regression-"+script.name+"-admitted-by-checktx", fmt.Sprintf("block %d: CheckTx returned code 0 for %s (%s)", h, t.Kind, t.Note))
+					} else {
+						res.Counters["regression:"+script.name+":refused-by-checktx"]++
+					}
+				}
+			}
 		}
 		var txs [][]byte
 		for _, t := range gts {
@@ -1198,27 +1237,12 @@ func runRewardsHistory(opt RewardsOptions, c int, r *rng.R, res *Result, hl *His
 		res.Distribution["blk:"+strings.Fields(oa.ImplLine)[0]]++
 		ctx.branchStats(res, b, oa, restartB && (h-1)%cyc != 0)
 		if sig, detail := ctx.monitorBlock(monA, oa, b, st); sig != "" {
-			if sig == "pulled-exceeds-year-left-after-failed-pull" {
-				// the history goes on (the same stale amount is handed out until the cycle ends)
-				if !monA.reported[sig] {
-					monA.reported[sig] = true
-					hit(sig, "replica A (never restarted): "+detail)
-				}
-			} else {
-				hit(sig, "replica A (never restarted): "+detail)
-				stop = true
-			}
+			hit(sig, "replica A (never restarted): "+detail)
+			stop = true
 		}
 		if sig, detail := ctx.monitorBlock(monB, ob, b, map[string]int{}); sig != "" && !stop {
-			if sig == "pulled-exceeds-year-left-after-failed-pull" {
-				if !monA.reported[sig] && !monB.reported[sig] {
-					monB.reported[sig] = true
-					hit(sig, "replica B (restarted): "+detail)
-				}
-			} else {
-				hit(sig, "replica B (restarted): "+detail)
-				stop = true
-			}
+			hit(sig, "replica B (restarted): "+detail)
+			stop = true
 		}
 		// clause 4: the restarted twin hands out the same amounts
 		pa, pb := "err", "err"
@@ -1227,6 +1251,16 @@ func runRewardsHistory(opt RewardsOptions, c int, r *rng.R, res *Result, hl *His
 		}
 		if ob.Pulled != nil {
 			pb = ob.Pulled.String()
+		}
+		if script != nil && script.expect != nil && !stop {
+			if want := script.expect[h]; want != "" {
+				if pa != want || pb != want {
+					hit("regression-"+script.name+"-unexpected-amount", fmt.Sprintf("block %d: expected both nodes to pull %s, running node pulls %s, restarted twin %s", h, want, pa, pb))
+					stop = true
+				} else {
+					res.Counters["regression:"+script.name+":amount-as-expected"]++
+				}
+			}
 		}
 		if (pa != pb || oa.Event.canon() != ob.Event.canon()) && !stop {
 			sig := "restart-changed-rewards"
@@ -1274,6 +1308,13 @@ func runRewardsHistory(opt RewardsOptions, c int, r *rng.R, res *Result, hl *His
 				hit("app-closed-by-panic", fmt.Sprintf("block %d tx %d %s(%s)", h, i, gts[i].Kind, gts[i].Note))
 				return false, nil
 			}
+			if script != nil && script.mustRefuse {
+				if tr.Code == 0 {
+					hit("regression-"+script.name+"-executed", fmt.Sprintf("block %d tx %d: DeliverTx returned code 0 for %s (%s)", h, i, gts[i].Kind, gts[i].Note))
+				} else {
+					res.Counters["regression:"+script.name+":refused-by-delivertx"]++
+				}
+			}
 			if before != nil {
 				after := overlayView(dumpA, pendingOf(A.App.VerifDeliverState()))
 				op, im, sig, detail := ctx.observeWithdraw(tx, tr, before, after, st)
@@ -1283,9 +1324,7 @@ func runRewardsHistory(opt RewardsOptions, c int, r *rng.R, res *Result, hl *His
 				}
 				if sig != "" && !stop {
 					hit(sig, fmt.Sprintf("block %d tx %d (%s): %s", h, i, gts[i].Note, detail))
-					if sig != "withdraw-raised-matured-balance-int64-wrap" {
-						stop = true
-					}
+					stop = true
 				}
 			}
 		}
